@@ -642,7 +642,13 @@ def plan(case):
     db = case["db"]
     b = int(case.get("base", 0))
     n1, n2, n3 = b + 1, b + 2, b + 3
-    sim0 = [KNOBS, RATES_TEXT.rstrip(), EXTRA_PHASES]
+    sim0 = []
+    if case.get("clean"):
+        # later cell of a history: whatever an earlier cell left under the numbers of this one is removed first (a
+        # left-over KINETICS / EXCHANGE ... would otherwise join a RUN_CELLS calculation of the same number); the
+        # per-phase state inside the engine is not touched by this
+        sim0 += ["DELETE\n -cells %d %d %d" % (n1, n2, n3), "END"]
+    sim0 += [KNOBS, RATES_TEXT.rstrip(), EXTRA_PHASES]
     if EXTRA_EXCHANGE.get(db):
         sim0.append(EXTRA_EXCHANGE[db])
     sim0.append(render_solution(case["sol"], n1))
@@ -743,5 +749,7 @@ def history_strategy(draw, dbs=("phreeqc.dat",)):
                             if c.get(kd, {}).get("kind") == "phase":
                                 c.pop(kd)
         c["base"] = draw(st.sampled_from([0, 0, 10, 20]))
+        if j > 0:
+            c["clean"] = True
         cells.append(c)
     return {"db": db, "history": cells}
